@@ -45,7 +45,7 @@ pub const DYN_KINDS: [DynKind; 8] = [
     DynKind::DummyPreferred,
 ];
 
-pub const FACTORS: [f64; 6] = [1.0, 1.25, 1.5, 2.0, 3.0, 4.0];
+pub const FACTORS: [f64; 8] = [1.0, 1.25, 1.5, 2.0, 3.0, 4.0, 1.1, 10.0];
 
 impl DynKind {
     pub fn sem(self) -> Sem {
@@ -305,7 +305,9 @@ fn upd_name(u: &Upd) -> &'static str {
 pub fn gen_history(rng: &mut Rng, solver: DynKind, fault_mode: usize) -> Vec<Step> {
     let universe = rng.range(2, 8);
     let max_live = rng.range(2, 7).min(universe);
-    let n_steps = *rng.pick(&[10usize, 20, 30, 45, 60]);
+    // 1 history in 250 is LONG (up to 300 steps): whatever a solver does every N-th update, or once
+    // the retired variables / tombstones outnumber the live ones
+    let n_steps = if rng.chance(1, 250) { *rng.pick(&[100usize, 160, 300]) } else { *rng.pick(&[10usize, 20, 30, 45, 60]) };
     let n_steps = rng.range(n_steps / 2 + 1, n_steps);
     // swarm: update-heavy / query-heavy / grow / shrink-and-regrow
     let (w_upd, w_q) = *rng.pick(&[(5usize, 1usize), (1, 1), (1, 4), (2, 1)]);
@@ -551,9 +553,7 @@ impl Property for Dyn {
                 i += chunk;
             }
         }
-        for i in 0..n {
-            let mut s = case.steps.clone();
-            s.remove(i);
+        for s in crate::framework::list_removals(&case.steps) {
             out.push(DynCase { steps: s, ..case.clone() });
         }
         if case.oracle.policy != Policy::Cadical {
